@@ -17,11 +17,15 @@
 (* {"a":"cfg","cfg":...} for Start, {"a":"req","q":...,"exp":...,"impl":...,"own":...,"why":...} *)
 (* for Do - `exp` the contract's prediction, `impl` the implementation-shaped layer's for the   *)
 (* configured variant - {"a":"purge"} (cache emptied: the replayable case of Evict) and          *)
-(* {"a":"unmap","be":b} (backend b deleted from the mapper).                                     *)
+(* {"a":"unmap","be":b} (backend b deleted from the table behind the mapper), {"a":"map","be":b,  *)
+(* "inst":l} (backend b created, or created again, as instance l) and {"a":"remap","be":b,        *)
+(* "inst":l} (backend b replaced by instance l: an updated pipeline).  After such a step the mode  *)
+(* "again" repeats the request served last: the same URL, the mapper's table having changed.       *)
 EXTENDS HttpRouter_MC, Json
 
 CONSTANTS GenTemplates, GenShells, GenServerFilters, GenPlans,
-          GenUnmaps     \* how many times in a behaviour a backend may be deleted (HttpRouter!Unmap)
+          GenUnmaps     \* how many times in a behaviour the table behind the mapper may change
+                        \* (HttpRouter!Unmap, Map, Remap)
 
 VARIABLES out, plan, started, pend, mode, purges, unmaps
 
@@ -60,6 +64,14 @@ Start == /\ ~started /\ Built
          /\ UNCHANGED <<vars, plan, pend, mode, purges, unmaps>>
 
 Cat(q) == q.host \o q.m \o q.path
+(* the values of the two headers folded into one string around a separator, in either order: two  *)
+(* requests for one URL whose values differ only in where the separator sits ("1," + "" and "1" +  *)
+(* ",") are as close as two different requests can be for anything that looks at header values      *)
+HdrSeps == {<<>>, <<",">>, <<";">>}
+HJoin(q, s) == <<q.hdr["X-A"] \o s \o q.hdr["X-B"], q.hdr["X-B"] \o s \o q.hdr["X-A"]>>
+HdrCollide(q, p) == q.hdr # p.hdr /\ \E s \in HdrSeps : HJoin(q, s) = HJoin(p, s)
+(* same URL, same client, colliding header values *)
+HdrNearSet(p) == {q \in Reqs : q.host = p.host /\ q.m = p.m /\ q.path = p.path /\ q.ip = p.ip /\ HdrCollide(q, p)}
 NearSet(p) == {q \in Reqs : q # p /\ \/ Cat(q) = Cat(p)
                                      \/ q.m = p.m /\ q.path = p.path /\ q.hdr = p.hdr /\ q.ip = p.ip
                                      \/ q.host = p.host /\ q.path = p.path /\ q.hdr = p.hdr /\ q.ip = p.ip}
@@ -72,12 +84,13 @@ Mode == /\ started /\ pend = <<>> /\ mode = "" /\ n < MaxReqs
         /\ \/ mode' = "any"
            \/ last.a = "req" /\ NearSet(last.q) # {} /\ mode' = "near"
            \/ last.a = "req" /\ RwSet(last.q) # {} /\ mode' = "rw"
-           \/ last.a = "unmap" /\ mode' = "again"
+           \/ last.a = "req" /\ HdrNearSet(last.q) # {} /\ mode' = "hdr"
+           \/ last.a \in {"unmap", "map", "remap"} /\ mode' = "again"
         /\ out' = ""
         /\ UNCHANGED <<vars, plan, started, pend, purges, unmaps>>
 
 Pick == /\ started /\ pend = <<>> /\ mode # ""
-        /\ \E q \in (CASE mode = "near" -> NearSet(last.q) [] mode = "rw" -> RwSet(last.q) [] mode = "again" -> {last.q} [] OTHER -> Reqs) : pend' = <<q>>
+        /\ \E q \in (CASE mode = "near" -> NearSet(last.q) [] mode = "rw" -> RwSet(last.q) [] mode = "hdr" -> HdrNearSet(last.q) [] mode = "again" -> {last.q} [] OTHER -> Reqs) : pend' = <<q>>
         /\ out' = ""
         /\ UNCHANGED <<vars, plan, started, mode, purges, unmaps>>
 
@@ -92,16 +105,34 @@ GPurge == /\ started /\ pend = <<>> /\ mode = "" /\ purges < MaxPurges /\ n >= 2
           /\ out' = ToJson(last')
           /\ UNCHANGED <<plan, started, pend, mode, unmaps>>
 
-(* the backend that has just served a request is deleted; the next request is that request again *)
-(* ("again") or any other                                                                         *)
-GUnmap == /\ started /\ pend = <<>> /\ mode = "" /\ unmaps < GenUnmaps /\ n >= 3
-          /\ last.a = "req" /\ last.exp.code = 0
-          /\ Unmap(last.exp.be)
+(* The table behind the mapper changes: the backend that has just served a request is deleted or   *)
+(* replaced by a new instance (an updated pipeline); the backend whose absence has just cost a      *)
+(* request its 503 is created (again).  The next request is that request again ("again") or any     *)
+(* other.  Labels of new instances: the name followed by the number of the change.                  *)
+Marks == <<"#1", "#2", "#3", "#4", "#5", "#6">>
+Fresh(b) == b \o Marks[unmaps + 1]
+GMapPre == started /\ pend = <<>> /\ mode = "" /\ unmaps < GenUnmaps /\ unmaps < Len(Marks) /\ n >= 1 /\ last.a = "req"
+LastBackend == EntryAt(cfg, last.own.pos).backend
+GUnmap == /\ GMapPre
+          /\ last.exp.code = 0
+          /\ Unmap(LastBackend)
           /\ unmaps' = unmaps + 1
           /\ out' = ToJson([a |-> "unmap", be |-> last'.be])
           /\ UNCHANGED <<plan, started, pend, mode, purges>>
+GRemap == /\ GMapPre
+          /\ last.exp.code = 0
+          /\ Remap(LastBackend, Fresh(LastBackend))
+          /\ unmaps' = unmaps + 1
+          /\ out' = ToJson([a |-> "remap", be |-> last'.be, inst |-> last'.inst])
+          /\ UNCHANGED <<plan, started, pend, mode, purges>>
+GMap == /\ GMapPre
+        /\ last.exp.code = 503 /\ last.own.code = 0
+        /\ Map(LastBackend, Fresh(LastBackend))
+        /\ unmaps' = unmaps + 1
+        /\ out' = ToJson([a |-> "map", be |-> last'.be, inst |-> last'.inst])
+        /\ UNCHANGED <<plan, started, pend, mode, purges>>
 
-GNext == NewRule \/ AddEntry \/ Start \/ Mode \/ Pick \/ Do \/ GPurge \/ GUnmap
+GNext == NewRule \/ AddEntry \/ Start \/ Mode \/ Pick \/ Do \/ GPurge \/ GUnmap \/ GRemap \/ GMap
 GSpec == GInit /\ [][GNext]_gvars
 
 (* plans: entries per rule *)
@@ -112,5 +143,8 @@ PlansRuleFocus == {<<0, 1>>, <<1, 1>>, <<0, 2>>}
 PlansMethFocus == {<<2>>, <<3>>, <<1, 1>>, <<0, 2>>}
 PlansRwFocus == {<<1>>, <<2>>, <<3>>, <<1, 1>>, <<2, 1>>}
 PlansShareFocus == {<<0, 1>>, <<0, 2>>, <<1, 1>>}
+PlansTenantFocus == {<<1, 1>>, <<1, 2>>, <<2, 1>>, <<1, 1, 1>>}
+PlansHdrKeyFocus == {<<2>>, <<3>>, <<1, 1>>, <<2, 1>>}
+PlansMapFocus == {<<1>>, <<2>>, <<1, 1>>, <<0, 2>>}
 PlansC12 == {<<1>>, <<2>>, <<1, 1>>, <<2, 1>>, <<1, 2>>, <<0, 1>>, <<0, 2>>, <<3>>}
 =============================================================================
